@@ -56,7 +56,7 @@ func unmarshalUpstream(endpoint string) (Upstream, error) {
 		return &InputOutput{Address: *address}, nil
 	case "udp", "udp4", "udp6", "unixgram":
 		return &Packet{Address: *address}, nil
-	case "dns", "dns+udp", "dns+unixgram":
+	case "dns":
 		return &Dns{Address: *address}, nil
 	default:
 		return nil, errors.Errorf("Unknown scheme: %s", address.Scheme)
